@@ -183,7 +183,7 @@ func c13Cluster(e *Env) error {
 		full := fulls[qi]
 		// every subset of partitions made unavailable, by error and by slowness
 		for mask := 0; mask < 1<<uint(P); mask++ {
-			for _, mode := range []int32{1, 2} {
+			for _, mode := range []int32{1, 3, 2} {
 				if mode == 2 && mask != 1 && mask != 2 && mask != 4 {
 					continue // slowness: one partition at a time (each such run waits for the leader's timeout)
 				}
